@@ -106,7 +106,14 @@ class DechunkedInput(io.RawIOBase):
 
     def read_chunk_len(self) -> int:
         try:
-            line = self._rfile.readline().decode("latin1").strip(" \t\r\n")
+            line = self._rfile.readline().decode("latin1")
+
+            if line.endswith("\r\n"):
+                line = line[:-2]
+            elif line.endswith("\n"):
+                line = line[:-1]
+
+            line = line.strip(" \t")
 
             if line.strip("0123456789abcdefABCDEF"):
                 # int() would also accept "0x", "+", "_" and Unicode spaces
